@@ -210,6 +210,7 @@ type stepper struct {
 
 	m        map[int]int    // spec request id -> index into reqs
 	moving   map[int]bool   // spec requests started or released by the current step
+	isLast   bool
 	prev     map[int]string // spec request id -> position observed after the previous step
 	refHash  string
 	n        int
@@ -220,6 +221,8 @@ type stepper struct {
 	wg       sync.WaitGroup
 	notes    []string
 	stressed bool
+	finished bool
+	last     int // index of the behaviour's last step
 }
 
 func (s *stepper) current() *reqG {
@@ -286,6 +289,7 @@ func (s *stepper) Begin(b replay.Behaviour, rng *rand.Rand) error {
 	}
 	s.rng = rng
 	s.n = replay.Int(b[0].Args, "N")
+	s.last = len(b) - 1
 	s.lazy = replay.Bool(b[0].Args, "LazyGates")
 	s.points = haveLazyPoints()
 	s.m = map[int]int{}
@@ -365,10 +369,14 @@ func (s *stepper) Begin(b replay.Behaviour, rng *rand.Rand) error {
 	return nil
 }
 
-func (s *stepper) End() {
-	if s.h == nil {
+func (s *stepper) End() { s.finish() }
+
+// finish opens every gate and waits for the request goroutines to leave.
+func (s *stepper) finish() {
+	if s.h == nil || s.finished {
 		return
 	}
+	s.finished = true
 	s.mu.Lock()
 	s.open = true
 	parked := []*reqG{}
@@ -686,6 +694,11 @@ func (s *stepper) snapshot(st replay.Step) replay.Obs {
 	}
 	s.mu.Unlock()
 	obs["bound"] = string(s.rpc.TransportKind())
+	if s.isLast {
+		// let everything run to completion first, so that a race report caused by this
+		// behaviour is attributed to it (and a --replay of it can reproduce the report)
+		s.finish()
+	}
 	raceFree(s.t, obs)
 	if len(notes) > 0 && obs["__note__"] == nil {
 		obs["__note__"] = strings.Join(notes, "; ")
@@ -704,6 +717,7 @@ func (s *stepper) Step(i int, st replay.Step) (replay.Obs, error) {
 		// Init of a Stress behaviour: nothing to observe yet
 		return replay.Obs{"__skip__": true}, nil
 	}
+	s.isLast = i == s.last
 	switch st.A {
 	case "Init":
 	case "Start":
